@@ -11,7 +11,7 @@ from vmon.libutil import XTCE_NS, monitored, xtce_element
 LEVEL = "exploration"
 SHARDS = {"quick": 16, "thorough": 16}
 MUST = ["int.evaluations", "ieee16.evaluations", "ieee32.evaluations", "ieee64.evaluations", "mil1750a.evaluations",
-        "route.from_xml", "route.ctor", "route.copied_types", "route.copied_decodes", "legacy.spellings", "context-not-applying.cases", "same-raw-object.redecodes"]
+        "route.from_xml", "route.ctor", "repeated_references.packets", "route.copied_types", "route.copied_decodes", "legacy.spellings", "context-not-applying.cases", "same-raw-object.redecodes"]
 RULE = ("ParameterType.parse_value is executed on packets whose field bits are chosen by the harness; every "
         "execution is compared with an explicit model (two's complement / byte reversal / IEEE-754 "
         "sign-exponent-mantissa arithmetic / 1750A rationals) for value, Python class, raw_value and cursor "
@@ -75,7 +75,9 @@ class Types:
         else:
             tag = "Integer" if kind == "int" else "Float"
             bo = f' byteOrder="{BO[little]}"' if (little or n % 3 == 0) else ""  # default byte order sometimes implicit
-            xml = (f'<xtce:{tag}ParameterType xmlns:xtce="{XTCE_NS}" name="T"><xtce:UnitSet/>'
+            eng = (' signed="false"' if n % 2 == 0 else ' signed="true"' if n % 3 == 0 else "") if kind == "int" else ""
+            eng += ' sizeInBits="32"' if n % 5 == 0 else ""       # engineering-type attributes: no influence on how the bits are read
+            xml = (f'<xtce:{tag}ParameterType xmlns:xtce="{XTCE_NS}" name="T"{eng}><xtce:UnitSet/>'
                    f'<xtce:{tag}DataEncoding sizeInBits="{n}" encoding="{enc}"{bo}/></xtce:{tag}ParameterType>')
             el = xtce_element(xml)
             cls = parameter_types.IntegerParameterType if kind == "int" else parameter_types.FloatParameterType
@@ -204,6 +206,50 @@ def extras(ctx, types, rng):
                               {"n": n, "results": results})
 
 
+def repeated_references(ctx, rng):
+    """one parameter referenced several times in a layout (spare / pad fields are): every reference is decoded at its own
+    position and advances the cursor by the field width; the integer and float fields after it are read where they lie"""
+    from vmon import gen, harness, ir, ref, render
+    from vmon.libutil import load_definition
+    from vmon.props.c05 import header_types
+    for case in range(ctx.size(24, 400)):
+        if not ctx.mine(case):
+            continue
+        r = ctx.rng("repeated", case)
+        ts, ps = header_types("PKT_APID")
+        w_sp = r.choice([1, 3, 5, 8, 12])
+        kinds = [("SPARE", ir.PType("SPARE_T", "integer", ir.IntEnc(w_sp, r.choice(["unsigned", "twosComplement"])))),
+                 ("A", ir.PType("A_T", "integer", ir.IntEnc(r.choice([7, 13, 16, 33]), "twosComplement"))),
+                 ("F", ir.PType("F_T", "float", ir.FloatEnc(r.choice([32, 64]), "IEEE754", False))),
+                 ("B", ir.PType("B_T", "integer", ir.IntEnc(r.choice([4, 9, 24]), "unsigned")))]
+        for n_, t_ in kinds:
+            ts.append(t_)
+            ps.append(ir.Param(n_, t_.name))
+        layout = r.choice([["SPARE", "A", "SPARE", "F", "B"], ["A", "SPARE", "SPARE", "F", "SPARE", "B"], ["SPARE", "F", "A", "SPARE", "B", "SPARE"],
+                           ["A", "F", "A", "B"], ["F", "SPARE", "F", "B"]])
+        root = ir.Container("CCSDSPacket", tuple(("p", p.name) for p in ps[:7]) + tuple(("p", n_) for n_ in layout))
+        doc = ir.Doc(tuple(ts), tuple(ps), (root,))
+        info = harness.DocInfo(doc)
+        defn = load_definition(render.render_doc(doc)) if case % 2 else __import__("vmon.build", fromlist=["definition"]).definition(doc)
+        tm = doc.type_map()
+        nbits = sum(tm[doc.param_map()[n_].type].enc.bits for n_ in layout)
+        for _ in range(4):
+            body = bytes(r.getrandbits(8) for _ in range((nbits + 7) // 8))
+            from space_packet_parser import packets as P
+            raw = bytes(P.create_ccsds_packet(body, apid=r.randrange(2048)))
+            out = ref.walk(doc, raw)
+            step, pkt = harness.parse_single(defn, raw)
+            ctx.count("evaluations")
+            ctx.count("repeated_references.packets")
+            ctx.sig("repeated-reference", "".join(x[0] for x in layout))
+            for mech, msg in harness.judge_single(ctx, info, raw, step, pkt, out):
+                ctx.violation("repeated-reference/" + mech, f"layout {layout}: " + msg, {"layout": layout, "raw": raw})
+                break
+            if step.exc is None and pkt.raw_data.pos != 48 + nbits:
+                ctx.violation("repeated-reference/cursor", f"layout {layout}: cursor at {pkt.raw_data.pos} after parsing, the fields end at bit {48 + nbits}",
+                              {"layout": layout, "raw": raw})
+
+
 def check_one_with(ctx, t, kind, n, enc, little, offset, fieldbits, pclass, rng, route):
     """like check_one but with a prepared parameter type"""
     class _T:
@@ -292,6 +338,7 @@ def run(ctx):
                           pclass, rng, "ctor" if mi & 1 else "from_xml")
     ctx.exhaustive_space("1750A exponents(256) x 64 mantissas x {BE,LE}", 1)
     extras(ctx, types, rng)
+    repeated_references(ctx, rng)
     ctx.sample({"kind": "int", "n": 13, "encoding": "twosComplement", "offset": 3, "field_bits": "1000000000001",
                 "model_value": bits.int_field("1000000000001", "twosComplement", False)})
     ctx.sample({"kind": "float", "n": 16, "encoding": "IEEE754", "little": True, "field_bits": bits.to_bits(0x01FC, 16),
